@@ -13,9 +13,10 @@ import (
 )
 
 type mregexp struct {
-	re   *regexp.Regexp
-	prog *syntax.Prog
-	src  string
+	re     *regexp.Regexp
+	prog   *syntax.Prog
+	src    string
+	bounds []int // cell boundaries of the class partition (regexsur.go)
 }
 
 func compileRegexp(src string) (*mregexp, error) {
@@ -223,7 +224,7 @@ func init() {
 		"(*regexp.Regexp).FindStringSubmatch": func(fr *frame, a []value) value {
 			s, ok := a[1].(string)
 			if !ok {
-				panic(engineError{"FindStringSubmatch on a symbolic string"})
+				return fr.i.regexSubmatch(regexOf(a[0]), a[1])
 			}
 			r := regexOf(a[0]).re.FindStringSubmatch(s)
 			if r == nil {
